@@ -1,7 +1,8 @@
-(* C12, part 1: layout_t::scale on well-formed zero-based layouts; byte addresses of member_cast and
-   reinterpret_array_cast views. *)
-From BM Require Import Base.Tactics Model.Layout Model.View Model.Spec Model.ProjectC12
-  Proofs.LayoutProofs Proofs.ViewProofs Proofs.ViewProofs2.
+(* C12, part 1: layout_t::scale (the code since /repo 1b46e17: stride, offset and nelems scaled) on well-formed
+   layouts with ANY index bases (dim_okg / lay_okg), with the zero-based statements (lay_ok) as corollaries; byte
+   addresses of member_cast and reinterpret_array_cast views. *)
+From BM Require Import Base.Tactics Model.Layout Model.View Model.Spec Model.Iter Model.Asserts Model.ProjectC12Based Model.ProjectC12
+  Proofs.LayoutProofs Proofs.ViewProofs Proofs.ViewProofs2 Proofs.IterProofs Proofs.ElemProofs.
 Local Open Scope Z_scope.
 
 (* ---- divisibility ---- *)
@@ -34,60 +35,127 @@ Proof.
   apply Z.quot_mul. assumption.
 Qed.
 
-(* ---- one dimension ---- *)
-Lemma dim_ok_scale d n num den : 0 < num -> 0 < den -> Z.rem (d_stride d * num) den = 0 ->
-  dim_ok d n -> dim_ok (d_scale num den d) n.
+(* ---- the scaled layout: the same function as C20's, and the old code on zero offsets ---- *)
+Lemma l_scale_b_is_fixed num den l : l_scale_b num den l = l_scale_fixed num den l.
+Proof. reflexivity. Qed.
+Lemma dom_scale_b_is_plain num den l : dom_scale_b num den l = asrt_scale_plain num den l.
+Proof. reflexivity. Qed.
+Lemma dom_scale_is_stride num den l : dom_scale num den l = dom_scale_stride num den l.
+Proof. reflexivity. Qed.
+
+Lemma d_scale_b_zero_offset num den d : d_offset d = 0 -> d_scale_b num den d = d_scale num den d.
 Proof.
-  intros Hn Hd Hr (Ho & Hne & H0 & Hs). unfold dim_ok, d_scale; cbn [d_stride d_offset d_nelems].
+  intro H. unfold d_scale_b, d_scale. rewrite H, Z.mul_0_l.
+  replace (Z.quot 0 den) with 0 by (destruct den; reflexivity). reflexivity.
+Qed.
+Lemma l_scale_b_zero_offsets num den l : dom_scale_off l = true -> l_scale_b num den l = l_scale num den l.
+Proof.
+  induction l as [|d l IH]; [reflexivity|]. cbn [dom_scale_off forallb]. fold (dom_scale_off l). intro H. bprop.
+  cbn [l_scale_b l_scale map]. rewrite d_scale_b_zero_offset by assumption. f_equal. apply IH. assumption.
+Qed.
+Lemma dom_scale_off_zero_based l sz : lay_ok l sz -> dom_scale_off l = true.
+Proof.
+  induction 1 as [|d n l sz (Ho & _) _ IH]; [reflexivity|]. cbn [dom_scale_off forallb]. fold (dom_scale_off l).
+  rewrite Ho, IH. reflexivity.
+Qed.
+Lemma l_scale_b_zero_based num den l sz : lay_ok l sz -> l_scale_b num den l = l_scale num den l.
+Proof. intro H. apply l_scale_b_zero_offsets. eapply dom_scale_off_zero_based; eassumption. Qed.
+
+Lemma dom_scale_b_split num den l : dom_scale_b num den l = dom_scale num den l && dom_scale_offset num den l.
+Proof.
+  induction l as [|d l IH]; [reflexivity|]. cbn [dom_scale_b dom_scale dom_scale_offset forallb].
+  fold (dom_scale_b num den l) (dom_scale num den l) (dom_scale_offset num den l). rewrite IH.
+  destruct (Z.rem (d_stride d * num) den =? 0), (Z.rem (d_offset d * num) den =? 0), (dom_scale num den l); reflexivity.
+Qed.
+
+Lemma rem_mul_l f x den : Z.rem x den = 0 -> Z.rem (f * x) den = 0.
+Proof.
+  intro H. destruct (Z.eq_dec den 0) as [->|Hd].
+  - rewrite Z.rem_0_r_ext in * by reflexivity. subst. lia.
+  - pose proof (Z.quot_rem' x den) as Q. rewrite H in Q. rewrite Q.
+    replace (f * (den * Z.quot x den + 0)) with ((f * Z.quot x den) * den) by lia. apply Z.rem_mul. exact Hd.
+Qed.
+
+(* the offset assertion follows from the stride assertion on every well-formed dimension (offset = first * stride) *)
+Lemma lay_okg_offset_assert num den l fn : lay_okg l fn -> dom_scale num den l = true -> dom_scale_offset num den l = true.
+Proof.
+  induction 1 as [|d p l fn Hd _ IH]; [reflexivity|]. rewrite dom_scale_cons. intro H. bprop.
+  cbn [dom_scale_offset forallb]. fold (dom_scale_offset num den l). rewrite IH by assumption. rewrite andb_true_r.
+  apply Z.eqb_eq. destruct Hd as (Ho & _). rewrite Ho.
+  replace (fst p * d_stride d * num) with (fst p * (d_stride d * num)) by lia. apply rem_mul_l. assumption.
+Qed.
+Lemma lay_okg_dom_scale_b num den l fn : lay_okg l fn -> dom_scale num den l = true -> dom_scale_b num den l = true.
+Proof. intros Hg H. rewrite dom_scale_b_split, H, (lay_okg_offset_assert _ _ _ _ Hg H). reflexivity. Qed.
+
+(* ---- one dimension ---- *)
+Lemma dim_okg_scale_b d f n num den : 0 < num -> 0 < den -> Z.rem (d_stride d * num) den = 0 ->
+  dim_okg d f n -> dim_okg (d_scale_b num den d) f n.
+Proof.
+  intros Hn Hd Hr (Ho & Hne & H0 & Hs). unfold dim_okg, d_scale_b; cbn [d_stride d_offset d_nelems].
   pose proof (quot_exact (d_stride d) num den ltac:(lia) Hr) as E.
   repeat split; try assumption.
+  - rewrite Ho. apply quot_scale_mul; [lia|assumption].
   - rewrite Hne. apply quot_scale_mul; [lia|assumption].
   - intros Hpos. specialize (Hs Hpos).
     set (q := Z.quot (d_stride d * num) den) in *. clearbody q. nia.
 Qed.
 
-Lemma lay_ok_scale num den l sz : 0 < num -> 0 < den -> dom_scale num den l = true ->
-  lay_ok l sz -> lay_ok (l_scale num den l) sz.
+Lemma dim_ok_scale d n num den : 0 < num -> 0 < den -> Z.rem (d_stride d * num) den = 0 ->
+  dim_ok d n -> dim_ok (d_scale_b num den d) n.
+Proof. intros Hn Hd Hr H. apply dim_ok_g. apply dim_ok_g in H. apply dim_okg_scale_b; assumption. Qed.
+
+Lemma lay_okg_scale num den l fn : 0 < num -> 0 < den -> dom_scale num den l = true ->
+  lay_okg l fn -> lay_okg (l_scale_b num den l) fn.
 Proof.
-  intros Hn Hd Hdom Hok. revert Hdom. induction Hok as [|d n l sz Hdim _ IH]; intros Hdom; cbn [l_scale map].
+  intros Hn Hd Hdom Hok. revert Hdom. induction Hok as [|d p l fn Hdim _ IH]; intros Hdom; cbn [l_scale_b map].
+  - constructor.
+  - rewrite dom_scale_cons in Hdom. bprop. constructor; [apply dim_okg_scale_b; assumption|apply IH; assumption].
+Qed.
+
+Lemma lay_ok_scale num den l sz : 0 < num -> 0 < den -> dom_scale num den l = true ->
+  lay_ok l sz -> lay_ok (l_scale_b num den l) sz.
+Proof.
+  intros Hn Hd Hdom Hok. revert Hdom. induction Hok as [|d n l sz Hdim _ IH]; intros Hdom; cbn [l_scale_b map].
   - constructor.
   - rewrite dom_scale_cons in Hdom. bprop. constructor; [apply dim_ok_scale; assumption|apply IH; assumption].
 Qed.
 
-(* den * (address in the scaled layout) = num * (address in the original layout) *)
-Lemma l_addr_scale num den l : forall sz idx, den <> 0 -> dom_scale num den l = true -> lay_ok l sz ->
-  den * l_addr (l_scale num den l) idx = num * l_addr l idx.
+(* den * (address in the scaled layout) = num * (address in the original layout): ANY index bases, every index tuple *)
+Lemma l_addr_scale_g num den l : forall fn idx, den <> 0 -> dom_scale num den l = true -> lay_okg l fn ->
+  den * l_addr (l_scale_b num den l) idx = num * l_addr l idx.
 Proof.
-  induction l as [|d l IH]; intros sz idx Hd Hdom Hok.
+  induction l as [|d l IH]; intros fn idx Hd Hdom Hok.
   - cbn. lia.
   - rewrite dom_scale_cons in Hdom. bprop. inv Hok. destruct idx as [|i idx]; [cbn; lia|].
-    cbn [l_scale map l_addr d_scale d_stride d_offset].
-    specialize (IH _ idx Hd H0 H5). unfold l_scale in IH.
+    cbn [l_scale_b map l_addr d_scale_b d_stride d_offset].
+    specialize (IH _ idx Hd H0 H5). unfold l_scale_b in IH.
     pose proof (quot_exact (d_stride d) num den Hd H) as E.
     destruct H3 as (Ho & _). rewrite Ho.
+    rewrite (quot_scale_mul (fst y) (d_stride d) num den Hd H).
     set (q := Z.quot (d_stride d * num) den) in *. clearbody q.
-    set (a' := l_addr (map (d_scale num den) l) idx) in *. clearbody a'.
+    set (a' := l_addr (map (d_scale_b num den) l) idx) in *. clearbody a'.
     set (a0 := l_addr l idx) in *. clearbody a0.
-    replace (den * (i * q - 0 + a')) with (i * (q * den) + den * a') by ring.
+    replace (den * (i * q - fst y * q + a')) with ((i - fst y) * (q * den) + den * a') by ring.
     rewrite E, IH. ring.
 Qed.
 
-(* the separate 1-D code of reinterpret_array_cast<U>() scales the offset as well; on a zero-based view
-   that is the same layout *)
-Lemma l_reinterpret_zero_based num den l sz : lay_ok l sz -> l_reinterpret num den l = l_scale num den l.
-Proof.
-  intros Hok. destruct l as [|d [|d' l]]; try reflexivity.
-  inv Hok. destruct H1 as (Ho & _). cbn [l_reinterpret l_scale map]. unfold d_rescale1, d_scale.
-  rewrite Ho. cbn. reflexivity.
-Qed.
+Lemma l_addr_scale num den l : forall sz idx, den <> 0 -> dom_scale num den l = true -> lay_ok l sz ->
+  den * l_addr (l_scale_b num den l) idx = num * l_addr l idx.
+Proof. intros sz idx Hd Hdom Hok. eapply l_addr_scale_g; try eassumption. apply lay_ok_okg. eassumption. Qed.
+
+(* the separate 1-D code of reinterpret_array_cast<U>() const& computes the same triple as scale *)
+Lemma l_reinterpret_is_scale num den l : l_reinterpret num den l = l_scale_b num den l.
+Proof. destruct l as [|d [|d' l]]; reflexivity. Qed.
+Lemma l_reinterpret_zero_based num den l sz : lay_ok l sz -> l_reinterpret num den l = l_scale_b num den l.
+Proof. intros _. apply l_reinterpret_is_scale. Qed.
 
 (* ---- the extra trailing dimension ---- *)
 Lemma l_reinterpret_n_eq num den n l :
-  l_rotate (mkdim 1 0 n :: l_scale num den l) = l_scale num den l ++ [mkdim 1 0 n].
+  l_rotate (mkdim 1 0 n :: l_scale_b num den l) = l_scale_b num den l ++ [mkdim 1 0 n].
 Proof. apply l_rotate_cons. Qed.
 
 Lemma p_reinterpret_n_lay szU n x :
-  lay (p_view (p_reinterpret_n szU n x)) = l_scale (p_esz x) szU (lay (p_view x)) ++ [mkdim 1 0 n]
+  lay (p_view (p_reinterpret_n szU n x)) = l_scale_b (p_esz x) szU (lay (p_view x)) ++ [mkdim 1 0 n]
   /\ base (p_view (p_reinterpret_n szU n x)) = 0
   /\ p_org (p_reinterpret_n szU n x) = p_ptr x
   /\ p_esz (p_reinterpret_n szU n x) = szU.
@@ -129,7 +197,7 @@ Section Casts.
     rewrite (l_addr_scale (p_esz x) szU (lay (p_view x)) sz idx ltac:(lia) Hdom Hok). lia.
   Qed.
 
-  Lemma reinterpret_lay : lay (p_view (p_reinterpret szU x)) = l_scale (p_esz x) szU (lay (p_view x)).
+  Lemma reinterpret_lay : lay (p_view (p_reinterpret szU x)) = l_scale_b (p_esz x) szU (lay (p_view x)).
   Proof. unfold p_reinterpret, p_rebase; cbn [p_view lay]. eapply l_reinterpret_zero_based; eassumption. Qed.
 
   Lemma reinterpret_ok : lay_ok (lay (p_view (p_reinterpret szU x))) sz.
@@ -154,7 +222,7 @@ Section Casts.
     intros Hl. destruct (p_reinterpret_n_lay szU n x) as (El & Eb & Eo & Ee).
     rewrite (p_addr_ptr (p_reinterpret_n szU n x)). unfold p_ptr at 1. rewrite El, Eb, Eo, Ee.
     rewrite l_addr_app.
-    2:{ unfold l_scale. rewrite map_length, (lay_ok_length _ _ Hok). symmetry; assumption. }
+    2:{ unfold l_scale_b. rewrite map_length, (lay_ok_length _ _ Hok). symmetry; assumption. }
     cbn [l_addr d_stride d_offset].
     pose proof (l_addr_scale (p_esz x) szU (lay (p_view x)) sz idx ltac:(lia) Hdom Hok). rewrite p_addr_ptr. lia.
   Qed.
